@@ -5,10 +5,16 @@ NAME = "sudoku"
 MODULE = "cspuz.puzzle.sudoku"
 FUNC = "solve_sudoku"
 MAX_ANSWERS = 400000
+TIER1 = ("Sudoku", "solve_sudoku_model")
 
 
 def call(mod, pb):
     return mod.solve_sudoku(pb["grid"], n=pb["n"])
+
+
+def ncand(pb):
+    import math
+    return math.factorial(pb['n'] ** 2) ** (pb['n'] ** 2)
 
 
 def encode(pb):
@@ -48,3 +54,16 @@ def tier2(tier, rng):
     if tier == "thorough":
         for g in _n2_grids(rng, 3):
             yield {"n": 2, "grid": g}
+
+
+def tier1_problems(tier, rng):
+    """program-capture tie: all sizes the model covers, clue values around every boundary"""
+    th = tier == "thorough"
+    yield {"n": 0, "grid": []}
+    for n in (1, 2, 3, 4) + ((5,) if th else ()):
+        size = n * n
+        vals = [-1, 0, 0, 0, 1, 2, size - 1, size, size + 1]
+        yield {"n": n, "grid": [[0] * size for _ in range(size)]}
+        yield {"n": n, "grid": [[((x + y) % size) + 1 for x in range(size)] for y in range(size)]}
+        for _ in range((40 if th else 8) if n <= 3 else 3):
+            yield {"n": n, "grid": [[rng.choice(vals) for _ in range(size)] for _ in range(size)]}
